@@ -6,7 +6,9 @@
               indentation)
      CStrLit  a string that originates in the template (raw text, string
               literal, map key, css suffix, message text, global string value),
-              written between quotes through template.JSEscape
+              written between quotes through the escaper soyjs/exec.go calls
+              (Model/JsEscape.v js_escape_soy: template.JSEscape, or
+              internal/jsescape -- Generated/Tables.v jsstr_pair_js says which)
      CName    an identifier that originates in the template, written verbatim
               (namespace / template / parameter / data key names, generated
               variable names)
@@ -33,7 +35,7 @@ Section Render.
   Definition render_chunk (c : chunk) : bstr :=
     match c with
     | CText t | CName t | CNum t | CFile t => t
-    | CStrLit q s => q :: js_escape is_print s ++ [q]
+    | CStrLit q s => q :: js_escape_soy jsstr_pair_js is_print s ++ [q]
     end.
   Fixpoint render_chunks (cs : list chunk) : bstr :=
     match cs with
